@@ -17,6 +17,7 @@ type trPrim struct {
 	lean   string
 	effect bool                                                  // result in the Outcome monad
 	mutRecv bool                                                 // statement-only: the receiver variable is rebound to the result
+	results bool                                                 // with mutRecv: the Lean function returns the new receiver first, then the results (trans_units_jprinter.go)
 	args   func(c *trCtx, call *ast.CallExpr) []ast.Expr // optional: checks the call and selects the arguments that are translated
 }
 
@@ -115,6 +116,7 @@ type trCtx struct {
 	deadAlias    map[types.Object]bool                          // trans_tree.go: aliases into a tree that was modified since
 	pureLits     map[*ast.FuncLit]string                        // trans_tree.go: function literals already translated as pure definitions
 	postLits     map[*ast.FuncLit]*trPostLit                    // trans_tree.go: function literals already translated for PostOrder
+	synth        map[ast.Expr]string                            // synthetic expression nodes that carry a translated term (trans_units_jprinter.go)
 }
 
 type trPre struct {
@@ -304,6 +306,9 @@ func (c *trCtx) errorBox(e ast.Expr) (string, bool) {
 
 // expr translates an expression to a single-line Lean term (atomic or parenthesised).
 func (c *trCtx) expr(e ast.Expr) string {
+	if s, ok := c.synth[e]; ok {
+		return s
+	}
 	// constants fold (except names of constants, which keep their name)
 	if tv, ok := c.info().Types[e]; ok && tv.Value != nil {
 		switch x := e.(type) {
@@ -550,6 +555,12 @@ func (c *trCtx) binary(x *ast.BinaryExpr) string {
 			other = x.Y
 		}
 		if other != nil {
+			if sel, ok := c.nilableSel(other); ok {
+				if x.Op == token.EQL {
+					return "(Option.isNone " + c.nilableRaw(sel) + ")"
+				}
+				return "(Option.isSome " + c.nilableRaw(sel) + ")"
+			}
 			if trSigOf(c.typeOf(other)) != nil {
 				if x.Op == token.EQL {
 					return "(Option.isNone " + c.expr(other) + ")"
@@ -653,6 +664,9 @@ func (c *trCtx) selector(x *ast.SelectorExpr) string {
 			if c.t.fieldOmitted(sel.Recv(), x.Sel.Name) {
 				trFail(x.Pos(), "field %s has a type outside the subset and is omitted from the translated struct", x.Sel.Name)
 			}
+			if trNilableField(sel.Recv(), x.Sel.Name) {
+				return "(Option.getD " + c.expr(x.X) + "." + trMangle(x.Sel.Name) + " [])" // read as a list: nil reads as empty
+			}
 			return c.expr(x.X) + "." + trMangle(x.Sel.Name)
 		default:
 			trFail(x.Pos(), "method value %s is outside the subset", trSrc(x))
@@ -705,8 +719,16 @@ func (c *trCtx) composite(x *ast.CompositeLit) string {
 						continue
 					}
 				}
+				if fn := kv.Key.(*ast.Ident).Name; trNilableField(ty, fn) {
+					given[fn] = c.nilableValue(kv.Value, fieldType(fn))
+					continue
+				}
 				given[kv.Key.(*ast.Ident).Name] = c.elemExpr(kv.Value, fieldType(kv.Key.(*ast.Ident).Name))
 			} else {
+				if trNilableField(ty, u.Field(i).Name()) {
+					given[u.Field(i).Name()] = c.nilableValue(el, u.Field(i).Type())
+					continue
+				}
 				given[u.Field(i).Name()] = c.elemExpr(el, u.Field(i).Type())
 			}
 		}
@@ -936,6 +958,9 @@ func (c *trCtx) builtin(name string, x *ast.CallExpr) string {
 		ty := c.typeOf(x.Args[0])
 		switch ty.Underlying().(type) {
 		case *types.Slice:
+			if trIsByteSlice(ty) {
+				trFail(x.Pos(), "len of a []byte is outside the subset (a []byte is only passed on to Write)")
+			}
 			return "(len " + c.expr(x.Args[0]) + ")"
 		case *types.Map:
 			trFail(x.Pos(), "len of a map is outside the subset (association lists may hold stale entries)")
